@@ -103,7 +103,10 @@ def check_create_arcs(chk, rep, repo):
     rep.fn("ARCS-rank-maxima", fn, "per-rank maxima are accumulated at index l", len(md) == 1,
            f"found {len(md)} store(s) into a per-rank array", line=ro.line)
     local_density = None
-    if not [e for e in w.events if e.kind == "store" and e.target == accs["density bound"] and e.seq <= sc.per.last_seq]:
+    # (a plain `self.density = 0` at entry that the final store overwrites is neither here nor there)
+    entry_zero = lambda e: not e.loops and e.seq < sc.per.first_seq and e.value in (("const", 0), ("const", 0.0)) and not e.aug
+    if not [e for e in w.events if e.kind == "store" and e.target == accs["density bound"] and e.seq <= sc.per.last_seq
+            and not entry_zero(e)]:
         local_density = _local_density_bound(w, sc, ro, d_r, accs["density bound"])
         if local_density:
             del accs["density bound"]
@@ -213,7 +216,8 @@ def _local_density_bound(w, sc, ro, d_r, field) -> bool:
         acc = 0;  per node, per valid rank: if d > acc: acc = d;  [if acc < 1e-5: acc = 1];  self.density = acc"""
     from ..ir import mk_cmp
     per = sc.per
-    fin = [e for e in w.events if e.kind == "store" and e.target == field]
+    fin = [e for e in w.events if e.kind == "store" and e.target == field
+           and not (not e.loops and e.seq < per.first_seq and e.value in (("const", 0), ("const", 0.0)) and not e.aug)]
     if len(fin) != 1 or fin[0].loops or fin[0].guards or fin[0].aug or fin[0].seq < per.last_seq:
         return False
     v = fin[0].value
